@@ -89,6 +89,7 @@ def family_kwargs():
 
 _SEM_KINDS = [
     ("The concatenation operator (+) is not allowed", "concatNotAllowed"),
+    ("cannot be used in or around a concatenation", "concatBrackets"),
     ("expects an output expression, but no '->' was found", "noArrow"),
     ("input expression(s), but found", "inputCount"),
     ("output expression(s), but found", "outputCount"),
